@@ -155,7 +155,88 @@ def r13_5(prog: Program, rep: Report):
     rep.check(identity or not via_float, "R13.5", r.routine.qualname, f.loc, "a value of the exact class is returned as is (only other classes are rebuilt from total_seconds())", "every duration, even one that is already valid, is rebuilt from the float total_seconds(): large durations with a sub-second part lose microseconds (the float has 53 bits)", detail="no-float-roundtrip")
 
 
+FAMILY_OF_PRED = {"ispatterntype": "re.Pattern", "isfractiontype": "fractions.Fraction", "istimedeltatype": "datetime.timedelta", "isuuidtype": "uuid.UUID"}
+
+
+def r13_7(prog, rep):
+    """A routine that rebuilds its result from attributes of the (decoded) input must read a set of attributes that
+    determines the value: `re.compile(x.pattern)` of a compiled pattern forgets its flags."""
+    rows = C.handlers(prog, "unmarshal")
+
+    def derives(x):
+        return x == VAL or (x[0] == "call" and T.refname(x[1]) in (f"{C.SERDES}.decode", f"{C.SERDES}.load", f"{C.SERDES}.strload") and bool(x[2]) and derives(x[2][0]))
+
+    n = 0
+    for r in rows:
+        fam = FAMILY_OF_PRED.get(r.pred_name)
+        if fam is None or r.routine is None:
+            continue
+        f = C.call_of(prog, r.routine)
+        if f is None:
+            continue
+        n += 1
+        bad = None
+        for p, ret in P.returns(P.paths_of(prog, f)):
+            read = set()
+            for s in T.walk(ret):
+                if s[0] == "attr" and derives(s[1]) and not s[2].startswith("__"):
+                    read.add(s[2])
+                if T.is_call_to(s, "builtins.getattr") and len(s[2]) >= 2 and derives(s[2][0]) and s[2][1][0] == "const":
+                    read.add(s[2][1][1])
+            # method calls on the input (total_seconds(), as_integer_ratio()) are not attribute projections
+            read -= {s[1][2] for s in T.walk(ret) if s[0] == "call" and s[1][0] == "attr" and derives(s[1][1])}
+            if read and not any(need <= read for need in oracle.STATE_FIELDS[fam]):
+                bad = sorted(read)
+        rep.check(bad is None, "R13.7", f"{r.pred_name}->{r.routine.name}", f.loc, f"no result is rebuilt from a partial set of the input's attributes (a {fam} is determined by {' or '.join(str(sorted(x)) for x in oracle.STATE_FIELDS[fam])})", f"the result is rebuilt from the input's attribute(s) {bad} alone, which do not determine a {fam}: an already-valid instance comes back altered (a compiled pattern loses its flags)", detail="whole-state")
+    return n
+
+
+def r13_6(prog, rep):
+    """Classes whose fields come from the constructor signature are rebuilt from those fields: a named parameter that
+    yields no hint is neither read from an instance nor passed back, so an already-valid instance comes back with the
+    parameter's default."""
+    from . import c10
+
+    hs = prog.function(f"{C.INSP}._hints_from_signature")
+    bad = []
+    iters = 0
+    for p in P.paths_of(prog, hs):
+        it = None
+        stored = False
+        for e in p.events:
+            if e[0] == "loop" and e[2] == 1:
+                it = e[1]
+                stored = False
+            elif it is not None and e[0] == "setitem" and e[1][0] in ("dict", "comp") or (it is not None and e[0] == "setitem" and e[4] is not None):
+                stored = True
+            elif e[0] == "loopend" and it is not None:
+                iters += 1
+                if not stored:
+                    feasible = []
+                    for kind in ("PO", "PK", "KO"):
+                        ok = True
+                        for g, pol in p.guards():
+                            v = c10._under_kind(g, kind)
+                            if v[0] == "const" and bool(v[1]) != pol:
+                                ok = False
+                        if ok:
+                            feasible.append(kind)
+                    if feasible:
+                        bad.append(feasible)
+                it = None
+    if iters == 0:
+        comp = any(T.contains(r, lambda s: s[0] == "comp" and s[1] == "dict") for _, r in P.returns(P.paths_of(prog, hs)))
+        if not comp:
+            rep.undecided("R13.6", hs.qualname, hs.loc, "the per-parameter loop of _hints_from_signature was not found")
+            return
+    rep.check(not bad, "R13.6", hs.qualname, hs.loc, "every named parameter of the signature yields a hint", f"a parameter of kind {bad[0] if bad else ''} can be skipped without a hint: a class whose fields come from its constructor is rebuilt without that member (the default replaces the real value)", detail="every-parameter")
+
+
 def run(prog: Program, rep: Report, tier: str):
+    rep.rule("R13.6", "signature-derived fields cover every named constructor parameter", floor=1)
+    r13_6(prog, rep)
+    rep.rule("R13.7", "results are never rebuilt from a partial projection of an already-valid input", floor=4)
+    r13_7(prog, rep)
     rep.rule("R13.5", "already-valid durations are not routed through a float", floor=1)
     rep.rule("R13.4", "the None member accepts the None object only, not text that parses as null", floor=1)
     rep.rule("R13.1", "identity check precedes any lossy text decode for families with text-like members", floor=1)
